@@ -423,8 +423,6 @@ structure ReuseSend where
   body : Bytes
   plan : Plan
 
-def sChunked : Bytes := "chunked".toUTF8.toList
-
 /-- the independent requests a sequence of sends of one object amounts to -/
 def reuseReqs (target : Bytes) (viaDic : Bool) (hs : List (Bytes × Bytes)) :
     List ReuseSend → String → Bytes → Bool → List (Req × Plan)
